@@ -98,6 +98,16 @@ Proof.
     pose proof (upd_ctx_fixed rc provs capo timeout freq total) as Hf. cbv zeta in Hf.
     destruct Hf as (_ & _ & _ & _ & _ & _ & _ & _ & _ & _ & -> & _). auto.
   - (* end block *) exfalso. eapply Hne. reflexivity.
+  - (* module update *) apply h_mod_update_gen in H. destruct H as (rc & t & capo & Erc & _ & _ & ->).
+    eapply I_sched_put; eauto using SEq_refl.
+    pose proof (upd_thr_fixed rc t provs capo timeout freq total) as Hf. cbv zeta in Hf.
+    destruct Hf as (_ & _ & _ & _ & _ & _ & _ & _ & _ & _ & -> & _). auto.
+  - (* module pause *) apply h_mod_pause_spec in H. destruct H as (rc & Erc & _ & _ & Hr & ->).
+    eapply I_sched_put; eauto using SEq_refl; cbn; discriminate.
+  - (* module start *) apply h_mod_start_spec in H. destruct H as (rc & Erc & _ & _ & ->).
+    eapply I_sched_started; eauto.
+  - (* module kill *) apply h_mod_kill_spec in H. destruct H as (rc & Erc & _ & _ & ->).
+    eapply I_sched_put; eauto using SEq_refl; cbn; discriminate.
 Qed.
 
 (* ------------------------------------------------------------------ *)
